@@ -8,7 +8,9 @@ RULE = ("every graph on n<=3 nodes over the 9 per-pair kinds {none,->,<-,<->,->&
         "undirected edge or a 2-cycle on at most one pair (thorough); the 240 relabellings of two 5-node witnesses of the visit-order dependence of the search; seeded random ADMGs 5<=n<=7, half of them ancestral and "
         "bow-free so that valid MAGs are frequent. repeat stream (same object): every ADMG(n<=3) x every single directed-edge edit, plus 300 (3000) random n<=6 "
         "ADMGs with 1-2 edits: the three functions are called on G0 and discarded, G0 is edited in place, the judged calls run on the "
-        "same object against the model of the final graph. distinct by canonical graph (pair); non-trivial = acyclic, no undirected edge and "
+        "same object against the model of the final graph. size stream: collider dead-end shapes with 7-14 nodes (a bidirected 3/4/5-clique "
+        "of admissible colliders next to the true inducing path x <-> c1 <-> c2 <-> y; one- and two-sided) under rotations of the integer "
+        "labels, random relabellings and alternating insertion orders (model only, oracle off above 6 nodes). distinct by canonical graph (pair); non-trivial = acyclic, no undirected edge and "
         "at least one non-adjacent pair (maximality is not vacuous)")
 EXHAUSTIVE = {"quick": "all graphs over 9 pair kinds n<=3; all acyclic ADMG(4)", "thorough": "same + 4-node graphs with one undirected/2-cycle pair"}
 TRUSTED = ["networkx find_cycle / ancestors / descendants / all_neighbors taken at face value"]
@@ -47,9 +49,44 @@ def repeat_cases(tier, rng):
         yield {"kind": "repeat-rand", "g0": g0, "g": c06.random_edit(rng, g0), "oracle": True}
 
 
+def size_shapes():
+    """'collider dead-end' shapes (L = S = {}): a bidirected k-clique d of spouses of x, every d_i -> y, so every d_i is an
+    admissible collider but the clique never reaches y; the true inducing path is x <-> c1 <-> c2 <-> y (c1 -> y, c2 -> x),
+    x and y are not adjacent, the graph is ancestral and NOT maximal.  M2: the mirror clique e on the side of y as well."""
+    import c06
+    for k in (3, 4, 5):
+        d = list(range(k))
+        x, y, c1, c2 = k, k + 1, k + 2, k + 3
+        B = c06.clique(d) + [(x, i) for i in d] + [(x, c1), (c1, c2), (c2, y)]
+        D = [(i, y) for i in d] + [(c1, y), (c2, x)]
+        yield "M%d" % k, gr.G(range(k + 4), D=D, B=B)
+        if k == 5:
+            e = list(range(k + 4, 2 * k + 4))
+            yield "MM%d" % k, gr.G(range(2 * k + 4), D=D + [(i, x) for i in e], B=B + c06.clique(e) + [(y, i) for i in e])
+
+
+def size_cases(tier, rng):
+    for name, g in size_shapes():
+        n = len(g["V"])
+        perms = [[(v + r) % n for v in range(n)] for r in range(0, n, 2 if n > 10 else 1)]
+        for _ in range((2 if n > 10 else 6) if tier == "quick" else 30):
+            q = list(range(n))
+            rng.shuffle(q)
+            perms.append(q)
+        for j, perm in enumerate(perms):
+            h = gr.relabel(g, lambda v: perm[v])
+            if j % 2:
+                h["V"] = sorted(h["V"])
+            c = {"kind": "size-" + name, "g": h, "oracle": n <= 6}
+            if j % 3 == 2:
+                c["_order"] = j
+            yield c
+
+
 def gen_cases(tier, rng):
     quick = tier == "quick"
     yield from repeat_cases(tier, rng)
+    yield from size_cases(tier, rng)
     for n in (1, 2, 3):
         for ks in itertools.product(list(KINDS), repeat=len(gr.pairs(n))):
             yield {"kind": "all%d" % n, "g": build(n, ks), "oracle": True}
@@ -145,7 +182,7 @@ def nontrivial(case, model):
 
 
 def key(case):
-    return (gr.canon(case["g"]), gr.canon(case["g0"]) if case.get("g0") else None)
+    return (gr.canon(case["g"]), gr.canon(case["g0"]) if case.get("g0") else None, case.get("_order"))
 
 
 def shrink(case):
